@@ -101,6 +101,11 @@ def run(repo, rep, tier):
     # and attribute values of every value class (str, bytes, numbers,
     # markup objects): all paths of the conversion routine the sinks call
     # (C02 owns the path analysis)
+    # tal:repeat walks a snapshot of its iterable (one-shot iterators, sized
+    # objects whose __iter__ is a generator, lists changed by the loop body):
+    # C08 owns the iterator-identity rules
+    from . import c08
+    L.borrow(repo, rep, "R01.4", "C08", c08._identity, ("materialise",))
     from . import c02
     L.borrow(repo, rep, "R01.5", "C02", lambda r, p: c02._quote_paths(
         r, p, tier), ("BAD", "class-missing"), minimum=3)
@@ -108,6 +113,7 @@ def run(repo, rep, tier):
     _cache_scope(repo, rep, func, res, steps)
     _tables(repo, rep, func)
     _parsers(repo, rep)
+    L.state_rule(repo, rep)
 
 
 EXPECT_KIND = {
@@ -815,6 +821,29 @@ def _cache_scope(repo, rep, func, res, steps):
     for n in ast.walk(func.node):
         if isinstance(n, ast.For) and "self._switches" in src(n.iter):
             search = n
+    if search is None:
+        # the lookup written without a loop: next(filter(None, <seq>), ...),
+        # next(s for s in <seq> if ...) -- modelled as a loop over <seq>
+        for n in ast.walk(func.node):
+            if isinstance(n, ast.Call) and src(n.func) == "next" and \
+                    n.args and "self._switches" in src(n.args[0]):
+                seq = None
+                a0 = n.args[0]
+                if isinstance(a0, ast.Call) and src(a0.func) == "filter" \
+                        and len(a0.args) == 2:
+                    seq = a0.args[1]
+                elif isinstance(a0, ast.GeneratorExp):
+                    seq = a0.generators[0].iter
+                if seq is not None:
+                    search = ast.For(target=ast.Name("_", ast.Store()),
+                                     iter=seq, body=[ast.If(
+                                         test=ast.parse(
+                                             "x is not None",
+                                             mode="eval").body,
+                                         body=[ast.Break()], orelse=[])],
+                                     orelse=[])
+                    ast.copy_location(search, n)
+                    ast.fix_missing_locations(search)
     if not push or search is None:
         raise AnalysisError("switch stack push / case lookup not found")
     push_line = tr[push[0]][0].lineno
